@@ -43,8 +43,9 @@ pub struct BuildOpts {
     /// probes also stamp the metadata word (so that elements can be traced across links)
     pub stamp: bool,
     pub batch: Option<BatchSpec>,
-    /// crash injection: the `n`-th user closure (in build order) panics on value `v`
-    pub crash: Option<(u32, i64)>,
+    /// crash injection: the `n`-th user closure (in build order) panics, in every replica, when it
+    /// is called for the `k`-th time
+    pub crash: Option<(u32, u64)>,
 }
 
 pub struct Builder<'a> {
@@ -61,6 +62,16 @@ pub struct Builder<'a> {
     pub routes: Vec<(u32, RouteKind)>,
     cur_tap: u32,
     states: Vec<IterationStateHandle<LoopState>>,
+}
+
+/// Count a call of an instrumented user closure and panic at the configured one.
+fn crash_tick(crash: Option<u64>, calls: &std::cell::Cell<u64>) {
+    if let Some(k) = crash {
+        calls.set(calls.get() + 1);
+        if calls.get() == k {
+            panic!("injected crash");
+        }
+    }
 }
 
 fn rec_of(v: i64) -> Rec {
@@ -117,7 +128,7 @@ impl<'a> Builder<'a> {
     }
 
     /// Crash trigger for the next user closure.
-    fn crash_for_closure(&mut self) -> Option<i64> {
+    fn crash_for_closure(&mut self) -> Option<u64> {
         let id = self.next_closure;
         self.next_closure += 1;
         match self.opts.crash {
@@ -364,11 +375,10 @@ impl<'a> Builder<'a> {
             Stage::Map(f) => {
                 let f = *f;
                 let crash = self.crash_for_closure();
+                let calls = std::cell::Cell::new(0u64);
                 let state = self.states.last().cloned();
                 erase(s.map(move |mut r: Rec| {
-                    if crash == Some(r.v) {
-                        panic!("injected crash");
-                    }
+                    crash_tick(crash, &calls);
                     let acc = state.as_ref().map_or(0, |h| h.get().acc);
                     r.v = f.apply(r.v, acc);
                     r
@@ -377,30 +387,27 @@ impl<'a> Builder<'a> {
             Stage::Filter(f) => {
                 let f = *f;
                 let crash = self.crash_for_closure();
+                let calls = std::cell::Cell::new(0u64);
                 erase(s.filter(move |r: &Rec| {
-                    if crash == Some(r.v) {
-                        panic!("injected crash");
-                    }
+                    crash_tick(crash, &calls);
                     f.keep(r.v)
                 }))
             }
             Stage::FlatMap(f) => {
                 let f = *f;
                 let crash = self.crash_for_closure();
+                let calls = std::cell::Cell::new(0u64);
                 erase(s.flat_map(move |r: Rec| {
-                    if crash == Some(r.v) {
-                        panic!("injected crash");
-                    }
+                    crash_tick(crash, &calls);
                     f.apply(r.v).into_iter().map(rec_of).collect::<Vec<_>>()
                 }))
             }
             Stage::FilterMap(f, g) => {
                 let (f, g) = (*f, *g);
                 let crash = self.crash_for_closure();
+                let calls = std::cell::Cell::new(0u64);
                 erase(s.filter_map(move |mut r: Rec| {
-                    if crash == Some(r.v) {
-                        panic!("injected crash");
-                    }
+                    crash_tick(crash, &calls);
                     if f.keep(r.v) {
                         r.v = g.apply(r.v, 0);
                         Some(r)
